@@ -302,8 +302,8 @@ PROPS = {
     },
     "C02": {
         "level": "exploration",
-        "jobs": lambda tier, seed: ports_jobs("c02", tier, seed),
-        "rule": "payloads: fixed-size [u64; 4] and, in every third history, slices [u64] of 1-6 elements whose length and every element are functions of the sample id (statically sized segment); the C01 history generator with loans kept unsent and received samples kept across further steps (also past the drop of their subscriber): every held sample and unsent loan carries a unique pattern that is re-verified after every step; at the end of every history a saturation probe drives each publisher to the worst case (all buffers full, every subscriber at its borrow limit, history full) and then takes all max_loaned_samples loans, twice. Non-trivial = a history in which two or more references (held samples, unsent loans) existed at once and the saturation probe ran; distinct = distinct (config, kinds of events).",
+        "jobs": lambda tier, seed: ports_jobs("c02", tier, seed, extra=lambda q, s, sd: shards("dbg", "w_ports", "c02r --svc local", 2, s, sd, first=60) + shards("dbg", "w_ports", "c02r --svc ipc", 1, s, sd, first=65)),
+        "rule": "request-response lifetime (c02r: the request/response model histories): the request chunk behind every held ActiveRequest and every held Response is re-read after every step and must be unchanged, corrupted or invented payloads at receive are violations; payloads: fixed-size [u64; 4] and, in every third history, slices [u64] of 1-6 elements whose length and every element are functions of the sample id (statically sized segment); the C01 history generator with loans kept unsent and received samples kept across further steps (also past the drop of their subscriber): every held sample and unsent loan carries a unique pattern that is re-verified after every step; at the end of every history a saturation probe drives each publisher to the worst case (all buffers full, every subscriber at its borrow limit, history full) and then takes all max_loaned_samples loans, twice. Non-trivial = a history in which two or more references (held samples, unsent loans) existed at once and the saturation probe ran; distinct = distinct (config, kinds of events).",
         "assumptions": COMMON_ASSUMPTIONS + ["request/response payload lifetime is covered by the C11 histories (held responses are re-verified after every step)"],
         "floor": (300, 50),
     },
